@@ -232,7 +232,9 @@ func (w *worker) run(j *Job) {
 	var evs []rt.M
 	switch j.Mode {
 	case "batch":
-		script := batchHead + j.Cfg.Call() + "|log().prefix('out')"
+		// sink 'in' holds references to the very messages the node under test receives: decoded AFTER the run they
+		// show whether the node modified its input (data shared with sibling branches and overlapping windows)
+		script := batchHead + "|log().prefix('in')" + j.Cfg.Call() + "|log().prefix('out')"
 		reset["script"] = script
 		ms := make([]edge.BufferedBatchMessage, len(j.Batches))
 		for i, b := range j.Batches {
@@ -242,9 +244,29 @@ func (w *worker) run(j *Job) {
 			evs = append(evs, e)
 		}
 		res, err = rt.RunBatchTask(w.env, script, [][]edge.BufferedBatchMessage{ms})
+		if err == nil {
+			for i, it := range res.BySink("in") {
+				if i < len(evs) && it.Batch != nil {
+					if b, derr := DecodeInBatch(it.Batch); derr == nil {
+						evs[i]["seen"] = EncInBatch(b)["pts"]
+					}
+				}
+			}
+		}
 	case "window":
-		script := streamHead + "|window().period(4s).every(4s)|log().prefix('win')" + j.Cfg.Call() + "|log().prefix('out')"
+		every := 4
+		if w.tasks%2 == 1 {
+			every = 2 // overlapping windows: a point is handed to the node twice
+		}
+		script := streamHead + fmt.Sprintf("|window().period(4s).every(%ds)|log().prefix('win')", every) + j.Cfg.Call() + "|log().prefix('out')"
 		reset["script"] = script
+		wr := make([]any, len(j.Points))
+		for i, p := range j.Points {
+			e := encPt(p.Pt)
+			e["g"] = p.G
+			wr[i] = e
+		}
+		evs = append(evs, rt.M{"ev": "Written", "pts": wr})
 		res, err = rt.RunStreamTask(w.env, script, mkStream(j.Points))
 		if err == nil {
 			// the batches the node under test was really given: the output of the real window node
@@ -259,7 +281,7 @@ func (w *worker) run(j *Job) {
 			}
 		}
 	case "stream":
-		script := streamHead + j.Cfg.Call() + "|log().prefix('out')"
+		script := streamHead + "|log().prefix('in')" + j.Cfg.Call() + "|log().prefix('out')"
 		reset["script"] = script
 		for _, p := range j.Points {
 			e := encPt(p.Pt)
@@ -268,6 +290,16 @@ func (w *worker) run(j *Job) {
 			evs = append(evs, e)
 		}
 		res, err = rt.RunStreamTask(w.env, script, mkStream(j.Points))
+		if err == nil {
+			for i, it := range res.BySink("in") {
+				if i < len(evs) && it.Point != nil {
+					g, p := DecodeInPoint(it.Point)
+					e := encPt(p)
+					e["g"] = g
+					evs[i]["seen"] = e
+				}
+			}
+		}
 	}
 	if err != nil {
 		rt.Fatalf("c11: task for %s could not run: %v", j.Cfg.Call(), err)
@@ -413,14 +445,16 @@ func genJobs(r *rt.Run) []*Job {
 		for _, ch := range chunks(len(runs), per, 0) {
 			var a, b []SPt
 			t := 0
-			for _, vs := range runs[ch[0]:ch[1]] {
-				t++
+			for ri, vs := range runs[ch[0]:ch[1]] {
+				// run times 2,1,4,3,6,5,...: every second run is OLDER than the one before it (out-of-order
+				// delivery inside a group); a run ends whenever the time changes, not only when it advances
+				t = runTime(ri)
 				for i, v := range vs {
 					a = append(a, SPt{"a", Pt{T: t, K: "int", V: v, H: hOf(i + 1), I: i + 1}})
 					b = append(b, SPt{"b", Pt{T: t, K: "float", V: v, H: hOf(i + 1), I: i + 1}})
 				}
 			}
-			t++
+			t += 3
 			a = append(a, SPt{"a", Pt{T: t, K: "int", V: 0, H: "p", I: 1}})
 			b = append(b, SPt{"b", Pt{T: t, K: "float", V: 0, H: "p", I: 1}})
 			j := &Job{Mode: "stream", Phase: "stream", Cfg: c}
@@ -444,17 +478,18 @@ func genJobs(r *rt.Run) []*Job {
 		seq := deBruijn(len(syms), n)
 		for _, ch := range chunks(len(seq), per, n-1) {
 			j := &Job{Mode: "stream", Phase: "stream-typechange", Cfg: c}
-			t := 0
+			t, ri := 0, 0
 			for _, s := range seq[ch[0]:ch[1]] {
 				if len(syms[s]) == 0 {
 					continue
 				}
-				t++
+				t = runTime(ri) // non-monotonic run times, see phase D
+				ri++
 				for i, p := range syms[s] {
 					j.Points = append(j.Points, SPt{"a", Pt{T: t, K: p.K, V: p.V, H: hOf(i + 1), I: i + 1}})
 				}
 			}
-			j.Points = append(j.Points, SPt{"a", Pt{T: t + 1, K: "int", V: 0, H: "p", I: 1}})
+			j.Points = append(j.Points, SPt{"a", Pt{T: t + 3, K: "int", V: 0, H: "p", I: 1}})
 			jobs = append(jobs, j)
 		}
 	}
@@ -468,6 +503,14 @@ func genJobs(r *rt.Run) []*Job {
 		jobs = append(jobs, randomJob(r.Rand))
 	}
 	return jobs
+}
+
+// runTime: time of the ri-th run of a stream job: 2,1,4,3,6,5,... (consecutive runs always differ).
+func runTime(ri int) int {
+	if ri%2 == 0 {
+		return ri + 2
+	}
+	return ri
 }
 
 func windowPoints(rnd *rand.Rand) []SPt {
@@ -546,6 +589,7 @@ func randomJob(rnd *rand.Rand) *Job {
 	j.Mode = "stream"
 	np := 4 + rnd.Intn(30)
 	tg := map[string]int{}
+	tmaxg := map[string]int{}
 	kg := map[string]string{}
 	ig := map[string]int{}
 	for i := 0; i < np; i++ {
@@ -553,9 +597,17 @@ func randomJob(rnd *rand.Rand) *Job {
 		if _, ok := kg[g]; !ok {
 			kg[g] = []string{"int", "float"}[rnd.Intn(2)]
 			tg[g] = 1
+			tmaxg[g] = 1
 		}
 		if rnd.Intn(3) == 0 || ig[g] >= 6 { // runs of at most 6 points
-			tg[g] += 1 + rnd.Intn(2)
+			d := 1 + rnd.Intn(2)
+			if rnd.Intn(3) == 0 && tg[g]-d >= 0 {
+				d = -d // an older run delivered late
+			}
+			tg[g] += d
+			if tg[g] > tmaxg[g] {
+				tmaxg[g] = tg[g]
+			}
 			ig[g] = 0
 		}
 		k := kg[g]
@@ -571,7 +623,7 @@ func randomJob(rnd *rand.Rand) *Job {
 	}
 	sort.Strings(gs)
 	for _, g := range gs {
-		j.Points = append(j.Points, SPt{g, Pt{T: tg[g] + 3, K: kg[g], V: 0, H: "p", I: 1}})
+		j.Points = append(j.Points, SPt{g, Pt{T: tmaxg[g] + 3, K: kg[g], V: 0, H: "p", I: 1}})
 	}
 	return j
 }
@@ -620,7 +672,8 @@ func Run(r *rt.Run) error {
 		"{-1,0,2,3} as int and as float, alternating (type change between consecutive batches), one or two groups; typechange: every ordered "+
 		"pair (thorough: triple/quadruple) of uniform batches of kind int/float/string/missing field and the empty batch as windows of a de "+
 		"Bruijn sequence, per function; window: seeded random points through the real window node, its output observed; stream: ALL runs of "+
-		"equal-time points of size 1..L, int and float groups interleaved, and type changes between runs; random: seeded configurations "+
+		"equal-time points of size 1..L with NON-MONOTONIC run times (2,1,4,3,..: every second run older than the one before), int and float "+
+		"groups interleaved, and type changes between runs; random: seeded configurations "+
 		"(percentile argument, top/bottom n and tag argument, movingAverage k, elapsed unit, as, usePointTimes) with sizes up to 6, repeated "+
 		"and unordered times, mixed kinds, three groups. Non-trivial = batch/run with at least 2 points; distinct by (configuration, input)", true)
 	return nil
